@@ -127,14 +127,27 @@ def load_known():
 
 # ----------------------------------------------------------------------------- correspondence runs
 
-def run_modelrun(lines):
-    rc, out = sh([MODELRUN], stdin="\n".join(lines) + "\n", timeout=3000)
+def _modelrun_chunk(chunk):
+    rc, out = sh([MODELRUN], stdin="\n".join(chunk) + "\n", timeout=6000)
     if rc != 0:
         raise RuntimeError("modelrun failed rc=%s: %s" % (rc, out[-300:]))
     res = out.split()
-    if len(res) != len(lines):
-        raise RuntimeError("modelrun answered %d lines for %d cases" % (len(res), len(lines)))
+    if len(res) != len(chunk):
+        raise RuntimeError("modelrun answered %d lines for %d cases" % (len(res), len(chunk)))
     return res
+
+
+def run_modelrun(lines):
+    """evaluate the extracted checker on every case line; large sets are split over the cores"""
+    if len(lines) < 400:
+        return _modelrun_chunk(lines)
+    from concurrent.futures import ThreadPoolExecutor
+    n = 16
+    size = (len(lines) + n - 1) // n
+    chunks = [lines[i:i + size] for i in range(0, len(lines), size)]
+    with ThreadPoolExecutor(max_workers=n) as ex:
+        parts = list(ex.map(_modelrun_chunk, chunks))
+    return [v for p in parts for v in p]
 
 
 class Ctx:
